@@ -68,7 +68,7 @@ func C14(run *hx.Run) {
 			detail := hx.M{"page_size": ps, "table": t.Name}
 			switch {
 			case pm != "":
-				run.Violation(key+"/panic", "panic: "+pm, detail)
+				run.Violation(key+"/"+pmKind(pm), pm, detail)
 			case err != nil:
 				run.Violation(key+"/error", fmt.Sprintf("Select(%s) at page size %d: %v", t.Name, ps, err), detail)
 			default:
@@ -104,7 +104,7 @@ func C14(run *hx.Run) {
 				key := fmt.Sprintf("C14/IndexedSelect/%s", ix.Name)
 				switch {
 				case pm != "":
-					run.Violation(key+"/panic", "panic: "+pm, detail)
+					run.Violation(key+"/"+pmKind(pm), pm, detail)
 				case err != nil:
 					run.Violation(key+"/error", fmt.Sprintf("IndexedSelect(%s) at page size %d: %v", ix.Name, ps, err), detail)
 				default:
